@@ -356,6 +356,18 @@ def run(ctx):
                what="on the layout `%s` the iterator stands on %s and ends at %s; expected %s, end %s" % (lname, [x[:2] for x in seen8][:8], end8, visits8[:8], final8))
     ctx.require_count("R16.8", 10)
 
+    # ---- R16.9: eq and cmp evaluated as whole functions on records whose strings / blob bytes live in one memory
+    ctx.rule("R16.9", "EQ=CMP ON SHARED BUFFERS: rtosc_arg_vals_eq_single and rtosc_arg_vals_cmp_single, evaluated as whole functions on pairs of values whose strings and blob bytes live in one byte memory "
+             "(two blobs that are prefixes of one buffer, equal bytes at two addresses, two copies of one string), agree - equal exactly when cmp is 0 - and cmp has the documented sign (a proper prefix first)")
+    from ..rules import eqcmp as EC
+    try:
+        bad9, n9 = EC.check(u)
+    except FD.Unknown as e:
+        raise AnalysisBroken("R16.9: eq_single / cmp_single not evaluable on value records: %s" % e)
+    ctx.ob("R16.9", "eq/cmp on value records", not bad9, site=A.where(u.function("rtosc_arg_vals_eq_single")), detail={"pairs": n9, "mismatches": bad9[:6]},
+           key="R16.9:%s" % (bad9[0]["pair"].split(":")[0].split(" ")[0] if bad9 else ""),
+           what="%s" % ("; ".join("%s: eq=%s cmp=%s (expected eq=%s, sign %s)" % (b_["pair"], b_["eq"], b_["cmp"], b_["expected"]["eq"], b_["expected"]["cmp_sign"]) for b_ in bad9[:3])))
+
     # ---- R16.3
     bad = []
     pairs = [("i", 1, "f", 1.0), ("s", "a", "S", "a"), ("T", 1, "F", 0), ("h", 1, "i", 1), ("b", b"", "s", "")]
